@@ -36,6 +36,36 @@ theorem insert_minus_one_restores {α} (e u : α) (base : List α) :
 
 example : popAt 1 (insertAt 1 9 [1, 2, 3]) = [1, 2, 3] := by decide
 
+/-! ### layering (django mode) -/
+
+/-- **Inner data over captured bindings over outer variables.**  When the layer of variables captured
+between the component tag and the fill is inserted right below the inner component's data layer
+(what `render_func` does for a component tag on a page), a name resolves, in this order, to: what the
+inner component's layers bind, else the captured binding, else the outer variable — for every
+context shape and every name. -/
+theorem captured_between_outer_and_inner (outer inner : Ctx) (captured : Layer) (x : Str) :
+    ctxGet (insertAt outer.length captured (outer ++ inner)) x =
+      orOld (ctxGet inner x) (orOld (lookupL x captured) (ctxGet outer x)) := by
+  rw [insertAt_eq]
+  have h1 : (outer ++ inner).take outer.length = outer := List.take_left' rfl
+  have h2 : (outer ++ inner).drop outer.length = inner := List.drop_left' rfl
+  rw [h1, h2, ctxGet_append, ctxGet_append_one]
+  cases lookupL x captured <;> rfl
+
+/-- **Known finding (C03, django mode): inside another component's template the order is different.**
+There the layer search of `render_func` hits the overriding `extra_context` layer on top, and the
+captured layer lands just below the top layer — above the inner component's data.  A captured `g`
+then wins over the inner component's own `g`. -/
+theorem captured_above_inner_data_when_nested :
+    let outer : Ctx := [[], [("v".toList, .str "o".toList)]]
+    let innerData : Layer := [("g".toList, .str "inner".toList)]
+    let top : Layer := [(compKey, .compRef 1)]              -- the extra_context layer with the overriding key
+    let captured : Layer := [("g".toList, .str "between".toList)]
+    let c2 : Ctx := outer ++ [innerData, [(compKey, .compRef 2)]] ++ [top]
+    -- `index_of_last_component_layer - 1` = the position just below the top layer
+    (match ctxGet (insertAt (c2.length - 2) captured c2) "g".toList with | some (.str s) => s | _ => []) = "between".toList := by
+  decide
+
 /-! ### what an isolated copy can see -/
 
 /-- **Isolation at the component boundary.**  A name that is not one of the library's internal
